@@ -1,8 +1,10 @@
 package sio
 
 import (
+	"errors"
 	eioparser "github.com/karagenc/socket.io-go/engine.io/parser"
 	"github.com/karagenc/socket.io-go/parser"
+	"reflect"
 )
 
 // C05_route_server: a connection that joined a symbolic subset of {/, /a}; a packet of ANY type addressed to /, /a,
@@ -223,5 +225,48 @@ func verifH_C05_route_client() {
 		verifAssert(hits[n] == want, "an event reaches only the client socket of exactly its namespace, once")
 	}
 	verifAssert(closes == 0, "an event for a namespace without a socket does not disturb the connection")
+	verifReach("end")
+}
+
+var errVerifJSONArgs = errors.New("verif: arguments cannot be decoded")
+
+// C05_client_errors: two namespaces share one client connection; "/a" is connected, "/b" is in a symbolic state
+// (connected, CONNECT sent but not yet answered, or disconnected). "/a" hits an error of its own (an event whose
+// arguments cannot be decoded: reported through the Manager's error handlers, which every socket of the connection
+// listens to). Nothing of "/b" is invoked because of it while "/b" is connected or waiting for its CONNECT answer - in
+// particular not its connect_error handlers - and "/b"'s state is untouched.
+//
+//verif:unwind 12
+func verifH_C05_client_errors() {
+	var log []verifEncoded
+	m, cl := verifClientWorld(verifRecParser{log: &log}, "/a", "/b")
+	a, b := cl["/a"], cl["/b"]
+	a.registerSubEvents()
+	b.registerSubEvents()
+	states := []clientSocketConnectionState{clientSocketConnStateConnected, clientSocketConnStateConnectPending, clientSocketConnStateDisconnected}
+	bState := states[verifChoose(0, 2)]
+	b.stateMu.Lock()
+	b.state = bState
+	b.stateMu.Unlock()
+	aEv, bEv, bConnErr, bDisc, mgrErr := 0, 0, 0, 0, 0
+	a.OnEvent("ev", func(string) { aEv++ })
+	b.OnEvent("ev", func(string) { bEv++ })
+	b.OnConnectError(func(any) { bConnErr++ })
+	b.OnDisconnect(func(Reason) { bDisc++ })
+	m.OnError(func(error) { mgrErr++ })
+	// the frame is addressed to /a (the faulty decoder's header says "/": route by hand)
+	a.onPacket(&parser.PacketHeader{Type: parser.PacketTypeEvent, Namespace: "/a"}, "ev", func(types ...reflect.Type) ([]reflect.Value, error) {
+		return nil, errVerifJSONArgs
+	})
+	verifWaitQuiescent()
+	verifAssert(aEv == 0 && mgrErr == 1, "the error of /a is reported once, its handler is not called")
+	verifAssert(bEv == 0 && bDisc == 0, "no event or disconnect handler of /b runs because of /a's error")
+	if bState != clientSocketConnStateDisconnected {
+		verifAssert(bConnErr == 0, "a namespace that is connected or waiting for its CONNECT answer gets no connect_error because of a sibling's error")
+	}
+	b.stateMu.RLock()
+	after := b.state
+	b.stateMu.RUnlock()
+	verifAssert(after == bState, "the sibling's connection state is untouched")
 	verifReach("end")
 }
